@@ -1327,7 +1327,7 @@ func explainInExprWithAlias(sb *strings.Builder, n *ast.InExpr, alias string, in
 					break
 				}
 			}
-			if allStringLiterals {
+			if allStringLiterals && len(n.List) > 0 {
 				// Large string list - separate children
 				argCount += len(n.List)
 			} else {
